@@ -14,6 +14,7 @@ import GE.Model.AttrLoop
 import GE.Model.Position
 import GE.Model.Escape
 import GE.Model.Mixture
+import GE.Model.ExprParse
 import GE.Model.ExprStr
 import GE.Model.BindingMap
 import GE.Model.CssIO
@@ -165,6 +166,21 @@ def step (fs : List String) : String :=
       | .text s => "T" ++ str s
       | .bind e => "B" ++ str e
     esc (String.intercalate "\x01" (ps.map show1))
+  | ["wparse", src] =>
+    -- lexer + token-level parser model on an expression source: the tree as an S-expression
+    let numOf (t : String) : Expr :=
+      if t.toList.all Char.isDigit && !t.isEmpty && !(t.length > 1 && t.toList.head? = some '0') then
+        (match t.toNat? with
+         | some v => if v < 2 ^ 63 then .int v else .float t
+         | none => .float t)
+      else .float t
+    let cs := chars src
+    match GE.Parse.lex (cs.length + 1) cs with
+    | none => "lex-error"
+    | some ts =>
+      match GE.Parse.parseExpr ⟨numOf⟩ (4 * ts.length + 40) ts with
+      | some e => esc e.toSExp
+      | none => "none"
   | ["mix_print", pieces] =>
     -- value printer model on pieces `T…` / `B…` separated by U+0001
     let ps : List GE.Mix.Piece := (if pieces.isEmpty then [] else pieces.splitOn "\x01").filterMap fun x =>
